@@ -474,8 +474,26 @@ def _loop_pair(prog: Program, report: Report) -> None:
     """ResolvedPos.marks ~ marks_across: the non-inclusive filter loop."""
     a = prog.func("prosemirror/model/resolvedpos.py::ResolvedPos.marks")
     b = prog.func("prosemirror/model/resolvedpos.py::ResolvedPos.marks_across")
-    la = _body_norm(a, _loop_of(a), {"other": "X"})
-    lb = _body_norm(b, _loop_of(b), {"next": "X"})
+    # locals and parameters are numbered by first occurrence in the loop, so that the two functions'
+    # different names for "the node on the other side" (`other` / `next`) - and any later renaming -
+    # do not matter
+    def alpha_lines(fn: Func, lines: list[str]) -> list[str]:
+        from ..norm import assigned_names
+
+        loc = (assigned_names([fn.node]) | set(fn.params())) - {"self"}
+        order: dict[str, str] = {}
+
+        def rep(m: re.Match) -> str:
+            nm = m.group(0)
+            if nm in loc:
+                order.setdefault(nm, f"L{len(order) + 1}")
+                return order[nm]
+            return nm
+
+        return [re.sub(r"(?<![\w.'\"])[A-Za-z_]\w*", rep, ln) for ln in lines]
+
+    la = alpha_lines(a, _body_norm(a, _loop_of(a), {}))
+    lb = alpha_lines(b, _body_norm(b, _loop_of(b), {}))
     verdict, diff = _classify(la, lb)
     if verdict == "same":
         report.ob("RSIB", a.key, "the non-inclusive-mark filter loop agrees with marks_across (index re-examined after a removal)")
@@ -532,20 +550,31 @@ def _map_touches(prog: Program, report: Report) -> None:
     a = prog.func("prosemirror/transform/map.py::StepMap._map")
     b = prog.func("prosemirror/transform/map.py::StepMap.touches")
 
+    from ..norm import facts as _nfacts
+
     def facts(fn: Func) -> dict[str, str]:
+        # every field in canonical form with the function's single-assignment locals resolved, so that a
+        # renamed, inlined or hoisted local and a mirrored comparison do not matter
+        res = Resolver(fn.node)
         out = {}
         for n in walk_own(fn.node):
             if isinstance(n, ast.For):
-                out["loop"] = src(n.iter)
+                out["loop"] = canon(res.expr(n.iter, 8))
             if isinstance(n, ast.Assign) and len(n.targets) == 1 and isinstance(n.targets[0], ast.Name) and n.targets[0].id in ("start", "end", "old_index", "new_index", "old_size"):
-                out[n.targets[0].id] = src(n.value)
+                out[n.targets[0].id] = canon(res.expr(n.value, 8))
             if isinstance(n, ast.If) and any(isinstance(x, ast.Break) for x in n.body):
-                out["break"] = src(n.test)
+                out["break"] = " and ".join(sorted(_nfacts(res.expr(n.test, 8), True)))
         return out
 
     fa, fb = facts(a), facts(b)
-    bad = [k for k in ("loop", "start", "end", "old_index", "new_index", "old_size", "break") if fa.get(k) != fb.get(k)]
+    keys = ("loop", "start", "end", "old_index", "new_index", "old_size", "break")
+    missing = [k for k in keys if (k in fa) != (k in fb)]
+    if missing:
+        # a local of that name exists on one side only: renamed or inlined, not comparable by name
+        report.errors.append(f"RSIB: StepMap._map and touches no longer share the locals {missing}: the pair cannot be compared (found 0 time(s) on one side)")
+        keys = tuple(k for k in keys if k not in missing)
+    bad = [k for k in keys if fa.get(k) != fb.get(k)]
     if bad:
         report.violate("RSIB", b, b.node, f"StepMap._map and touches disagree on {bad}", f"both scan the ranges with the same skeleton; they differ in {[(k, fa.get(k), fb.get(k)) for k in bad]}", witness=[a.key, b.key], what="_map ~ touches scan skeleton")
-    else:
+    elif not missing:
         report.ob("RSIB", a.key, "scan skeleton (loop header, start, end, selectors, break test) agrees with touches")
